@@ -232,3 +232,39 @@ func HarnessKeyDerivedPairs() {
 		vAssert(a != b, "c02.different-paths-share-entry")
 	}
 }
+
+// HarnessKeyDerivedHosts: one symbolic host h and hosts derived from it by adding a port
+// (":80", ":443", ":8"), a trailing dot, or a leading label byte, over both transports of both
+// requests: the proxy contacts the origin exactly as named by Host (proxy/requests.go builds
+// the upstream URL from req.Host), so hosts that differ after ASCII case folding are different
+// resources and must not share an entry - an explicit default port included.
+func HarnessKeyDerivedHosts() {
+	n := vParam("len", 3)
+	h := symString(n)
+	for i := 0; i < len(h); i++ {
+		vAssume(h[i] < 0x80)
+	}
+	var g string
+	switch symChoice(6) {
+	case 0:
+		g = h + ":80"
+	case 1:
+		g = h + ":443"
+	case 2:
+		g = h + ":8"
+	case 3:
+		g = h + "."
+	case 4:
+		g = "w" + h
+	default:
+		g = h + ":"
+	}
+	tls1, tls2 := symChoice(2) == 1, symChoice(2) == 1
+	a := preHash("GET", h, "/x", "q", tls1)
+	b := preHash("GET", g, "/x", "q", tls2)
+	vReach("compared")
+	vAssert(a != b, "c02.different-hosts-share-entry")
+	// and the derived host still shares with its own case variants
+	c := preHash("GET", refFoldASCII(g), "/x", "q", tls2)
+	vAssert(b == c, "c02.host-case-not-shared")
+}
